@@ -422,10 +422,11 @@ func FamilyRef(thorough bool, seed int64) []*Skeleton {
 		// canonical id differs from retrieval URI
 		u3 := map[string]string{rel("alias.json"): `{"$id":"http://canon/c.json","$anchor":"ca","const":50,"$defs":{"s":{"$ref":"#ca"}}}`}
 		mk("remote-alias", root, J{}, map[string]string{"byretrieval": "alias.json", "s": "alias.json#/$defs/s", "anch": "alias.json#ca"}, u3, false)
-		mk("remote-alias-canonical", root, J{}, map[string]string{"first": "alias.json", "canon": "http://canon/c.json#ca"}, u3, false)
+		mk("remote-alias-canonical", root, J{}, map[string]string{"a1-first": "alias.json", "b2-canon": "http://canon/c.json#ca"}, u3, false) // (resolved in key order: the retrieval comes first)
 		// ... and a *relative* $id: the canonical URI is the $id resolved against the retrieval URI
 		u3r := map[string]string{rel("alias2.json"): `{"$id":"canon2.json","$anchor":"ca","const":51,"$defs":{"s":{"$ref":"#ca"}}}`}
-		mk("remote-alias-relative-id", root, J{}, map[string]string{"first": "alias2.json", "canon": "canon2.json#ca", "canonroot": "./canon2.json"}, u3r, false)
+		mk("remote-alias-relative-id", root, J{}, map[string]string{"a1-first": "alias2.json", "b2-canon": "canon2.json#ca", "b3-canonroot": "./canon2.json"}, u3r, false)
+		mk("remote-alias-relative-id-unloaded", root, J{}, map[string]string{"a1-canon": "canon2.json#ca", "b2-first": "alias2.json"}, u3r, false)
 		// cycles and diamonds with pointer and anchor fragments
 		cyc := func(frag string) map[string]string {
 			return map[string]string{
